@@ -740,7 +740,8 @@ def run(ctx):
     rule_criterion_operand(ctx, repo)
     rule_flag_reset(ctx, repo)
     rule_newton_exits(ctx, repo)
-    from rules import c17_nk, c17_update
+    from rules import c17_nk, c17_update, c17_dropped
+    c17_dropped.run_rule(ctx, repo)
     c17_nk.run_rule(ctx, repo)
     c17_update.run_rule(ctx, repo)
     rule_nan_measure(ctx, repo)
